@@ -179,15 +179,33 @@ Fixpoint server_catch (sp : sspec) (x : exn) (s : st) : outcome * st :=
 
 Definition init_st : st := St 0 0 0 [].
 
-Definition server_handle (sp : sspec) (h : hspec) (acts : list action) : outcome * st :=
-  match proto_handle h acts init_st with
+(* GopherRequestHandler.handle from the moment getProtocol has returned *)
+Definition server_handle_from (sp : sspec) (h : hspec) (acts : list action) (s0 : st) : outcome * st :=
+  match proto_handle h acts s0 with
   | (Ok, s) => (Contained, s)
   | (Raise x, s) => server_catch sp x s
+  end.
+Definition server_handle (sp : sspec) (h : hspec) (acts : list action) : outcome * st :=
+  server_handle_from sp h acts init_st.
+
+(* The whole connection: `pre` is what the classification phase does —
+   ProtocolMultiplexer.getProtocol constructing the protocol objects and calling
+   their canhandlerequest(), which may read the header block — BEFORE the try
+   statement of GopherRequestHandler.handle.  Whatever is raised there leaves
+   the connection handler. *)
+Definition connection (sp : sspec) (h : hspec) (pre acts : list action) : outcome * st :=
+  match run_actions pre init_st with
+  | (Ok, s0) => server_handle_from sp h acts s0
+  | (Raise x, s0) => (Escaped x, s0)
   end.
 
 (* the records written after the connection failed, oldest first *)
 Definition after_fault (s : st) : list entry := rev (filter e_after (log s)).
 End Fault.
+
+(* a classification phase that neither writes to the connection nor raises FileNotFound *)
+Definition silent (pre : list action) : bool :=
+  forallb (fun a => match a with AWrite | ANotFound => false | _ => true end) pre.
 
 (* every with-block of the response is closed in the response itself *)
 Fixpoint final_depth (acts : list action) (d : nat) : option nat :=
